@@ -53,8 +53,11 @@ ASSUMPTIONS = [
     "classifications of multiplicity 1 (constants, and varying classes whose dimension has size 1) are not inspected by "
     "check_valid: any value passes; changing a shape entry to 1 therefore never breaks a rule of that class",
     "model exactness (exception class as well as accept/reject) holds when shape entries in use are ints/bools, "
-    "dcmmeta_slice_dim is not a float and present classification entries are dicts; for a float slice dim only accept/reject "
-    "is compared (always a rejection); other contents are not generated",
+    "dcmmeta_slice_dim is not a float and present classification entries are dicts (1465 of 1465 cases agreed on the class "
+    "when it was compared everywhere); the check compares the class for valid contents and single corruptions, and only "
+    "accept/reject for double corruptions, the malformed stream and a float slice dim (always a rejection), so that "
+    "re-ordering independent tests inside check_valid is not reported; contents outside this domain are not generated",
+    "dcmmeta_slice_dim True/False are read as 1/0, as Python does (model and rules alike)",
     "an unknown or missing dcmmeta_version raises KeyError (not InvalidExtensionError): NiftiWrapper then propagates "
     "KeyError instead of skipping the candidate; a ragged affine raises ValueError. Both are rejections",
 ]
@@ -565,7 +568,12 @@ class Check:
         dc = domain_class(c)
         if dc == 'outside':
             return None
-        return {'kind': kind, 'content': c, 'ops': ops or [], 'cmp_err': dc == 'exact'}
+        # The exception CLASS is compared only where it does not depend on the order in which independent
+        # tests are made: valid contents and single corruptions of a valid content (one fault).  For double
+        # corruptions and the malformed stream (several faults at once) only accept/reject is compared, so
+        # that re-ordering independent tests of check_valid is not reported.
+        one_fault = kind == 'valid' or kind.startswith('single:')
+        return {'kind': kind, 'content': c, 'ops': ops or [], 'cmp_err': dc == 'exact' and one_fault}
 
     @staticmethod
     def gen_cases(rng, tier):
@@ -782,7 +790,9 @@ class Gate:
                     exts.append({'code': 0, 'content': c, 'inject': rng.choice(['raw', 'object']) if isinstance(c, dict) else 'raw'})
                 elif ch == 'w':
                     c = wild_mutate(rng, b)
-                    if domain_class(c) == 'outside':
+                    # from_runtime_repr(None): nibabel reads an object of None as "no object yet" and
+                    # re-parses the (empty) raw bytes, which is not what the model's argument means
+                    if c is None or domain_class(c) == 'outside':
                         ok = False
                         break
                     exts.append({'code': 0, 'content': c, 'inject': 'raw'})
@@ -790,7 +800,8 @@ class Gate:
                     exts.append({'code': rng.choice([4, 6]), 'content': rng.choice([b, "hello", [1, 2]]), 'inject': 'raw'})
             if not ok:
                 continue
-            cmp_err = all(domain_class(e['content']) == 'exact' for e in exts if e['code'] == 0)
+            # exception class compared unless a candidate carries several faults at once (see Check._mk)
+            cmp_err = all(domain_class(e['content']) == 'exact' for e in exts if e['code'] == 0) and 'w' not in pattern
             cases.append({'kind': 'gate:' + (pattern or 'none'), 'img_shape': shape, 'exts': exts,
                           'make_empty': rng.random() < 0.4, 'img_slice_dim': rng.choice([None, 0, 1, 2]), 'cmp_err': cmp_err})
         return cases
